@@ -11,10 +11,10 @@ VERIF = os.path.dirname(os.path.dirname(os.path.abspath(__file__)))
 def verdict(r):
     if r["exit"] == 0 and not r["violation_lines"]:
         return "missed"
-    if any("no-failing-input-found" in l for l in r["violation_lines"]):
-        return "noticed (model ≠ implementation, no failing input found)"
-    if r["violation_lines"]:
+    if any("no-failing-input-found" not in l for l in r["violation_lines"]):
         return "caught, concrete replay"
+    if r["violation_lines"]:
+        return "noticed (model ≠ implementation, no failing input found)"
     return "exit %d" % r["exit"]
 
 
